@@ -134,8 +134,37 @@ class C17(Engine):
                    "display is never toggled off before run on riscv/mips/ebpf (their run loops have no seam call to schedule a SIGINT at)",
                    "requested ranges are bounded to 64 Ki units except explicit wrap probes at the top of the address space"]
 
+    NSWEEP = 68 * 3      # every CPU's disassembler over seeded byte soup, three images each
+
     def directed(self):
-        return len(FORMATS) * 4
+        return len(FORMATS) * 4 + self.NSWEEP
+
+    def soup_plan(self, rng, k):
+        """-<cpu> -disasm (or disasm in a session) over an image of seeded bytes: every disassembler meets opcodes,
+        prefixes, switch tables and lengths no assembler would have produced."""
+        cpus = [c["name"] for c in progs.cpus()]
+        cpu = cpus[k % len(cpus)]
+        n = rng.pick([64, 300, 2000])
+        kind = rng.below(3)
+        if kind == 0:
+            data = rng.bytes(n)
+        elif kind == 1:
+            data = bytes(rng.pick([0x00, 0xff, 0xaa, 0xab, 0xc4, 0x0e, 0x80, 0x7f, 0xcb, 0xdd, 0xed, 0xfd, 0x10, 0x20]) for _ in range(n))
+        else:
+            data = bytes((rng.below(256) if rng.chance(1, 2) else 0xff) for _ in range(n))
+        base = rng.pick([0, 0x100, 0x8000, 0xff00, 0xfffffe00])
+        src = ".%s\n.org 0x%x\n" % (cpu, base // max(progs.cpu_info(cpu)["bpa"], 1))
+        for i in range(0, len(data), 16):
+            src += ".db " + ", ".join("0x%02x" % b for b in data[i:i + 16]) + "\n"
+        interactive = rng.chance(1, 3)
+        return {"fmt": "hex", "ext": "hex", "cpu": cpu, "src": src, "ti_txt": None, "damage_seed": rng.u64(), "ndamage": 0,
+                "env": {"clock0": 1291231234, "heap_fill": rng.below(4), "heap_seed": rng.u64(), "stack_fill": rng.below(4),
+                        "stack_seed": rng.u64(), "chunk_seed": 0},
+                "faults": [], "serial": None, "name": "obj.hex",
+                "argv": ["-" + cpu, "obj.hex"] + ([] if interactive else ["-disasm"]),
+                "mode": "interactive" if interactive else "-disasm",
+                "console": ["disasm", "disasm 0x%x-0x%x" % (base // max(progs.cpu_info(cpu)["bpa"], 1), base // max(progs.cpu_info(cpu)["bpa"], 1) + 40), "quit"] if interactive else [],
+                "sigs": []}
 
     def plan(self, rng, index):
         plan = self._plan(rng, index)
@@ -144,9 +173,14 @@ class C17(Engine):
         return plan
 
     def _plan(self, rng, index):
+        nfmt = len(FORMATS) * 4
+        if nfmt <= index < self.directed():
+            return self.soup_plan(rng, index - nfmt)
         if index >= self.directed() and rng.chance(1, 12):
             return self.port_plan(rng)
-        fmt, ext = FORMATS[index % len(FORMATS)] if index < self.directed() else rng.pick(FORMATS)
+        if index >= self.directed() and rng.chance(1, 10):
+            return self.soup_plan(rng, rng.below(68 * 1000))
+        fmt, ext = FORMATS[index % len(FORMATS)] if index < nfmt else rng.pick(FORMATS)
         cpu = rng.pick(images.IMAGE_CPUS) if rng.chance(2, 3) else rng.pick(progs.cpus())["name"]
         if rng.chance(1, 3):
             prog = progs.gen_program(rng, cpu=cpu if cpu in progs.corpus() else None, nstmts=rng.range(2, 10), allow_includes=False)
